@@ -236,8 +236,37 @@ def check_property(pid, tier='quick', repo='/repo', write=True, quiet=False, con
     return violations, known_hits, all_obs
 
 
+def explain(argv):
+    """./check explain <violation.json>: print the recorded violation and re-evaluate that obligation on /repo's current tree
+    (exit 1 if the same key is still reported, 0 if it is gone)."""
+    if not argv or not os.path.exists(argv[0]):
+        print('usage: ./check explain evidence/violations/Cxx-n.json')
+        return 2
+    with open(argv[0]) as f:
+        rec = json.load(f)
+    print('property   : %s' % rec.get('property'))
+    print('obligation : %s -- %s' % (rec.get('obligation'), rec.get('title')))
+    print('rule       : %s' % rec.get('rule'))
+    print('construct  : %s' % (rec.get('where') or '(see text)'))
+    print('key        : %s' % rec.get('key'))
+    print('reported   : [%s, config %s] %s' % (rec.get('status'), rec.get('config'), rec.get('what')))
+    if rec.get('witness'):
+        print('witness    : %s' % json.dumps(rec['witness'], default=str)[:2000])
+    pid = rec.get('property')
+    violations, known_hits, all_obs = check_property(pid, 'quick', '/repo', write=False, quiet=True)
+    again = [(c, ob, v) for c, ob, v in violations if v['key'] == rec.get('key')]
+    if again:
+        c, ob, v = again[0]
+        print('current tree: STILL REPORTED -- %s%s' % (v['what'], (' @ ' + v['where']) if v.get('where') else ''))
+        return 1
+    print('current tree: this key is not reported any more (%d other violation(s) of %s)' % (len(violations), pid))
+    return 0
+
+
 def main(argv):
     import argparse
+    if argv and argv[0] == 'explain':
+        return explain(argv[1:])
     ap = argparse.ArgumentParser()
     ap.add_argument('property')
     ap.add_argument('--tier', default=os.environ.get('VERIF_TIER') or 'quick')
